@@ -163,6 +163,41 @@ def s3(ctx, rid):
         raise core.AnchorLost('no take()->push flow of the active blob')
 
 
+def s3b(ctx, rid):
+    """no append can slip in between the sync and the retirement of the active blob: at the sync the exclusive storage guard is
+    held and the same guard is still live at the take()"""
+    prog = ctx.prog
+    S = sync_summ(prog, excuse=lambda fn: none_edges_of_field(fn, 'active_blob'))
+    n = 0
+    for f in prog.fns.values():
+        for c in f.calls:
+            if not (c.name == 'take' and c.path.startswith('std::option::Option') and prims.receiver_field(f, c) == 'active_blob' and c.bb in f.reachable()):
+                continue
+            carry = core.flows_forward(f, c.dest[0], transparent=core.fwd_transparent)
+            pushes = [p for p in f.calls if p.path.endswith('HierarchicalFilters::<Key, Filter, Child>::push') and any(op_local(a) in carry for a in p.args)]
+            if not pushes:
+                continue
+            n += 1
+            key = 'sync-and-retire-one-guard|%s' % f.id
+            IN, at, guards = core.held_guards(f)
+            excl = {g for g, gc in guards.items() if gc[2] == 'storage::core::Safe' and gc[1] == 'W'}
+            held_at_take = excl & set(at(c.bb))
+            # sync event sites: calls (START) whose completion is an event
+            ev_calls = [x for x in f.calls if x.bb in f.reachable() and (prims.is_raw_sync(x) or any(t in prog.fns and not prog.fns[t].is_coroutine and t != f.id and S.must(t) for t in prog.resolve(x)))]
+            if not ev_calls:
+                ctx.bad(rid, key, c.where(), 'no sync before the retirement')
+                continue
+            bad = [x for x in ev_calls if not (held_at_take & set(at(x.bb)))]
+            if not held_at_take:
+                ctx.bad(rid, key, c.where(), 'the active blob is taken out without the exclusive storage guard')
+            elif bad:
+                ctx.bad(rid, key, bad[0].where(), 'the sync of the active blob runs under a different (shared) storage guard than its retirement: writers, which only need the shared lock, can append between the sync and the take(), and a successful close leaves un-synced bytes')
+            else:
+                ctx.ok(rid, key, c.where(), 'the sync and the take() happen under the same live exclusive storage guard')
+    if n < 1:
+        raise core.AnchorLost('no take()->push flow of the active blob')
+
+
 def s4(ctx, rid):
     prog = ctx.prog
     S = sync_summ(prog, excuse=lambda fn: none_edges_of_field(fn, 'active_blob'))
@@ -387,6 +422,7 @@ RULES = [
     Rule('C12.S1', 'every ok-return of the blob constructor is preceded by the header append and then a completed ok file sync', s1, 2),
     Rule('C12.S2', 'every index dump / index-file construction call is dominated by an ok sync of the blob file (in the function or in every caller)', s2, 3),
     Rule('C12.S3', 'where a blob taken (Option::take) out of the active slot is pushed to the closed list, that push is dominated by an ok sync of the active blob file', s3, 1),
+    Rule('C12.S3b', 'the sync of the active blob and its retirement happen under the same live exclusive storage guard', s3b, 1),
     Rule('C12.S4', 'every ok-return of the public fsyncdata on which an active blob exists is preceded by an ok file sync', s4, 1),
     Rule('C12.S5', 'every append to the active blob feeds the dirty-byte check (on every path to the ok-return in the write path); every check controls a sync request on its true edge; the worker handler reaches a sync', s5, 5),
     Rule('C12.S6', 'the synced-size counter is only advanced by fetch_max after an ok sync_all, with a size captured before the sync', s6, 2),
